@@ -1,7 +1,7 @@
 // libtopology harness (C13): topology-preserving layout steps on scenes of non-overlapping nodes with straight
 // edges, driven (as in production) through ConstrainedFDLayout + ColaTopologyAddon by dragging one node.
 //   h_topo run <scenes.txt> <out.json>
-// scene line: n (x y w h)*n  m (u v)*m  drag  steps dx dy  rz rw rh   reuse  drag2 steps2 d2   (integers; node indices 0-based; rz = -1: no resize,
+// scene line: n (x y w h)*n  m (u v)*m  drag  steps dx dy  rz rw rh   reuse  drag2 steps2 d2  nb (edge node corner)*nb   (integers; node indices 0-based; rz = -1: no resize,
 //             otherwise node rz is given width rw and height rh about its centre through topology::applyResizes after the drag;
 //             reuse = 1 (single-axis drags only): ONE TopologyConstraints instance serves all steps, the desired positions change between its solves;
 //             drag2 >= 0 (with reuse): after the first drag a second node is dragged steps2 times by d2 along the same axis, same instance;
@@ -9,6 +9,9 @@
 // After every alg.run() the state is recorded: node rectangles and every edge path as (node, corner) points.
 #include "vtrace.h"
 #include <fstream>
+#include <iostream>
+#include <cstdio>
+#include <unistd.h>
 #include "libcola/cola.h"
 #include "libtopology/topology_graph.h"
 #include "libtopology/topology_constraints.h"
@@ -46,6 +49,9 @@ int main(int argc, char **argv)
         int m; in >> m; std::vector<cola::Edge> es(m);
         for (auto &e : es) { int u, v; in >> u >> v; e = std::make_pair((unsigned)u, (unsigned)v); }
         int drag, steps, dx, dy, rz, rw, rh, reuse, drag2, steps2, d2; in >> drag >> steps >> dx >> dy >> rz >> rw >> rh >> reuse >> drag2 >> steps2 >> d2;
+        // initial bends, in path order per edge: the edge passes corner <corner> (0 TR, 1 BR, 2 BL, 3 TL; T = larger y) of node <node>
+        int nb; in >> nb; std::vector<std::vector<int> > bends(nb, std::vector<int>(3));
+        for (auto &b : bends) in >> b[0] >> b[1] >> b[2];
         vt::J j; j.obj().k("n").i(n).k("edges").arr(); for (auto &e : es) j.arr().i(e.first).i(e.second).end(); j.end();
         j.k("drag").i(drag).k("dx").i(dx).k("dy").i(dy).k("rz").i(rz).k("rw").i(rw).k("rh").i(rh).k("reuse").i(reuse).k("drag2").i(drag2).k("steps2").i(steps2).k("d2").i(d2);
         topology::Nodes vs;
@@ -54,10 +60,14 @@ int main(int argc, char **argv)
         for (size_t i = 0; i < es.size(); i++) {
             topology::EdgePoints ps;
             ps.push_back(new topology::EdgePoint(vs[es[i].first], topology::EdgePoint::CENTRE));
+            for (auto &b : bends) if (b[0] == (int)i) ps.push_back(new topology::EdgePoint(vs[b[1]], (topology::EdgePoint::RectIntersect)b[2]));
             ps.push_back(new topology::EdgePoint(vs[es[i].second], topology::EdgePoint::CENTRE));
             tes.push_back(new topology::Edge(i, 60, ps));
         }
         bool thrown = false; std::string what;
+        // the library explains a failed consistency check on stdout (printf/cout) before it throws: captured per scene
+        fflush(stdout); std::cout.flush();
+        int savedOut = dup(1); FILE *cap = tmpfile(); if (cap) dup2(fileno(cap), 1);
         j.k("states").arr();
         snapshot(j, vs, tes);
         std::vector<int> dims, phases;   // per recorded state after the first: axis (2 = resize) and which drag it belongs to
@@ -129,6 +139,14 @@ int main(int argc, char **argv)
         } catch (vpsc::CriticalFailure &f) { thrown = true; what = f.what(); }
         catch (std::exception &e) { thrown = true; what = e.what(); }
         catch (...) { thrown = true; what = "unknown exception"; }
+        fflush(stdout); std::cout.flush();
+        if (savedOut >= 0) { dup2(savedOut, 1); close(savedOut); }
+        std::string said;
+        if (cap) { rewind(cap); char buf[4096]; size_t k; while ((k = fread(buf, 1, sizeof buf, cap)) > 0 && said.size() < 20000) said.append(buf, k); fclose(cap); }
+        if (thrown) {
+            size_t at = said.find("test failed: ");
+            if (at != std::string::npos) { size_t e = said.find_first_of(",\n!", at); what += " | said: " + said.substr(at + 13, e == std::string::npos ? 60 : e - at - 13); }
+        }
         j.end().k("dims").ints(dims).k("phases").ints(phases);
         j.k("thrown").b(thrown);
  if (thrown) j.k("what").s(what);
